@@ -132,6 +132,130 @@ def canon(netlist, lower=True):
     return out
 
 
+# ---------------------------------------------------------------- structural relation, independent of the comparer
+# Mirror in Python of the declarative relations of coq/theories/Cmp/Equiv.v (nv_equiv_ord, nv_equiv,
+# nv_covered), computed from the real objects: siblings are matched by name (any order), the wire at
+# each index carries the same pin designators, references by (definition name, library name),
+# properties as (entry index, key) -> value under Python's ==.
+class _NoKey(Exception):
+    pass
+
+
+def _uniq(items):
+    """items: list of (name, key) -> dict name -> key; siblings must be named and pairwise different"""
+    out = {}
+    for name, key in items:
+        if name is None or name in out:
+            raise _NoKey()
+        out[name] = key
+    return tuple(sorted(out.items()))
+
+
+def _pval(v):
+    if v is None:
+        return ('n',)
+    if isinstance(v, bool):
+        return ('i', int(v))           # True == 1
+    if isinstance(v, int):
+        return ('i', v)
+    if isinstance(v, str):
+        return ('s', v)
+    raise _NoKey()
+
+
+def _inst_key(i):
+    r = i.reference
+    ref = None if r is None else (r.name, r.library.name if r.library is not None else None)
+    return (i.name, _oid(i), ref)
+
+
+def _props(i):
+    if 'EDIF.properties' not in i:
+        return None
+    ps = i['EDIF.properties']
+    if not isinstance(ps, list) or not all(isinstance(d, dict) for d in ps):
+        raise _NoKey()
+    return [{k: _pval(v) for k, v in d.items()} for d in ps]
+
+
+def _def_key(d, ordered):
+    ports = _uniq([(p.name, (_oid(p), DIRS[p.direction], bool(p.is_array), len(p.pins))) for p in d.ports])
+    cables = []
+    for c in d.cables:
+        wires = []
+        for w in c.wires:
+            pins = []
+            for pin in w.pins:
+                t = []
+                canon_pin(pin, d, t)
+                pins.append(tuple(t))
+            wires.append(tuple(pins) if ordered else tuple(sorted(pins)))
+        cables.append((c.name, (_oid(c), tuple(wires))))
+    return (_oid(d), ports, _uniq(cables), _uniq([(i.name, _inst_key(i)) for i in d.children]))
+
+
+def struct_key(n, ordered=True):
+    """order-independent structure of a named netlist without its properties; None outside the named netlists"""
+    try:
+        t = n.top_instance
+        libs = _uniq([(l.name, (_oid(l), _uniq([(d.name, _def_key(d, ordered)) for d in l.definitions])))
+                      for l in n.libraries])
+        return (n.name, _oid(n), None if t is None else _inst_key(t), libs)
+    except (_NoKey, OutsideModel):
+        return None
+
+
+def props_map(n):
+    """place of an instance -> its properties (None if it has none)"""
+    out = {}
+    if n.top_instance is not None:
+        out[('T',)] = _props(n.top_instance)
+    for l in n.libraries:
+        for d in l.definitions:
+            for i in d.children:
+                out[(l.name, d.name, i.name)] = _props(i)
+    return out
+
+
+def _props_sub(px, py):
+    if px is None:
+        return True
+    if py is None:
+        return False
+    for x, d in enumerate(px):
+        for k, v in d.items():
+            if x >= len(py) or k not in py[x] or py[x][k] != v:
+                return False
+    return True
+
+
+def relation(x, y):
+    """'equiv_ord' | 'equiv_set' | 'covered' | 'covered_set' | 'different' | None (not named netlists)
+    covered = equal up to sibling order except that y has properties x lacks"""
+    try:
+        kx, ky = struct_key(x, True), struct_key(y, True)
+        if kx is None or ky is None:
+            return None
+        if kx == ky:
+            ordered = True
+        elif struct_key(x, False) == struct_key(y, False):
+            ordered = False
+        else:
+            return 'different'
+        mx, my = props_map(x), props_map(y)
+    except _NoKey:
+        return None
+    if set(mx) != set(my):
+        return 'different'
+    fwd = all(_props_sub(mx[k], my[k]) for k in mx)
+    back = all(_props_sub(my[k], mx[k]) for k in mx)
+    if fwd and back:
+        return 'equiv_ord' if ordered else 'equiv_set'
+    if fwd:
+        return 'covered' if ordered else 'covered_set'
+    return 'different'
+
+
 EXN = {AssertionError: 'reject', StopIteration: 'stopiteration', IndexError: 'indexerror',
        KeyError: 'keyerror', AttributeError: 'attributeerror', TypeError: 'typeerror'}
 
